@@ -29,6 +29,8 @@ CLAIMED = {
          "Goroutine interleavings are NOT modelled: re-entrancy is decided by write confinement (disjoint write sets cannot interfere); native replay of a confinement finding runs under the race detector. Maps > 3 entries: identity/reverse/rotation orders only."),
  "C12": ("§6 C12", "Every reachable Go panic site on every explored path is a violation (API template families, arbitrary variable bytes per declared type through the symbolic regexp/SetString models, one trigger per error class, store failure injected at every call, nil store maps); errors must carry the class naming the cause and come with the zero result.",
          "Variable texts <= 3 (quick) / 5 (thorough) arbitrary bytes; script families as C01/C03/C05/C08/C10."),
+ "C13": ("§6 C13", "ParsePercentageRatio / parsePercentageRatio / parseRatio and ParsePortionSpecific executed symbolically on token texts of a fixed layout with EVERY digit symbolic: the result equals digits/10^(f+2) resp. N/D in base ten (cross-multiplied), variables agree with literals and are rejected exactly outside [0,1]; metadata round trip through two real scripts for all integers (numbers, monetaries), symbolic-byte assets and strings, accounts and a grid of portions, incl. MarshalJSON = quoted text.",
+         "Digit counts bounded (quick 3+3, thorough 22); ratio-variable denominators concrete per case; portion round trips on concrete texts."),
 }
 
 NA = {}
